@@ -10,6 +10,8 @@
   of it and their negations are proved here from the DESIGN.md §1 witnesses.
 -/
 import GLua.Proofs.StrLib
+import GLua.Model.MathLib
+import GLua.Spec.MathSpec
 
 namespace GLua.Props.C15
 open GLua GLua.Generated GLua.StrModel GLua.StrSpec GLua.StrProofs
@@ -359,5 +361,102 @@ theorem random_full_fails : ¬ random_full := by
 /-- the pinned tree reaches `rand.Intn` with a non-positive argument on an empty interval: a Go panic. -/
 theorem random_pinned_empty_panics :
     mathRandom2Pinned (fun _ => 0) 5 4 = .error (.goPanic "invalid argument to Intn") := by decide
+
+/-! ## special operands: signed zeros, infinities, NaN, subnormals, 2^53, 2^63 (bit patterns)
+
+    Model = GLua/Model/MathLib.lean (the mathlib.go wrappers and vm.go `luaModulo` over the exact IEEE-754
+    arithmetic of GLua/Spec/MathIEEE.lean), Spec = GLua/Spec/MathSpec.lean (C99 §7.12 / Annex F, Lua 5.1 manual).
+    `Float` is opaque to the kernel, so these are statements about bit patterns; they are checked by kernel
+    evaluation on the harness's bounded-exhaustive operand grid (29 operands, all 841 pairs) — FINITE statements,
+    the ∀-versions over all 2^64 patterns are not proved.  TRUSTED for the transfer to the real code: Go's float64
+    operators and math.Floor/Ceil/Abs/Sqrt/Mod/Modf/Frexp/Ldexp are the operations of MathIEEE.lean (the harness
+    re-checks this on every request: Go's result must equal the Lean Model bit for bit). -/
+
+section Special
+open GLua.IEEE GLua.MathSpec GLua.MathModel
+
+/-- ±0, ±1, ±2, ±3, ±6, ±0.5, ±2.5, ±inf, ±2^53, ±2^63, ± smallest subnormal, ± largest subnormal,
+    ± smallest normal, ± largest finite, NaN — the operand set of harness/c15_special.go (quick tier) -/
+def spGrid : List Bits :=
+  [0, 9223372036854775808, 4607182418800017408, 13830554455654793216, 4611686018427387904, 13835058055282163712,
+   4613937818241073152, 13837309855095848960, 4618441417868443648, 13841813454723219456, 4602678819172646912,
+   13826050856027422720, 4612811918334230528, 13836183955189006336, 9218868437227405312, 18442240474082181120,
+   4845873199050653696, 14069245235905429504, 4890909195324358656, 14114281232179134464, 1, 9223372036854775809,
+   4503599627370495, 9227875636482146303, 4503599627370496, 9227875636482146304, 9218868437227405311,
+   18442240474082181119, 9221120237041090561]
+
+/-- do the Model's results satisfy the Spec's expectations, result by result -/
+def spRefines : Option (List Bits) → Option (List Expect) → Bool
+  | some rs, some es => rs.length = es.length ∧ (List.zipWith (fun (e : Expect) r => e.holds r) es rs).all id
+  | _, _ => false
+
+/-- **special_fmod_sign** — on every pair of the grid `math.fmod(x, y)` (= `math.Mod`) is a NaN exactly when x is
+    infinite, y is zero or an operand is a NaN, and otherwise carries the SIGN BIT OF THE DIVIDEND — zero results
+    included (fmod(-6, 3) = fmod(-0, 5) = −0) —, is smaller in magnitude than a finite divisor, and is x itself
+    for an infinite divisor. -/
+theorem special_fmod_sign :
+    spGrid.all (fun x => spGrid.all fun y =>
+      match call2 "fmod" x y with
+      | some [r] =>
+        if isNaN x ∨ isNaN y ∨ isInf x ∨ isZero y then isNaN r
+        else !isNaN r && (isNeg r == isNeg x) && (if isInf y then r == x else lt (abs r) (abs y))
+      | _ => false) = true := by decide +kernel
+
+example : call2 "fmod" 13841813454723219456 4613937818241073152 = some [9223372036854775808] := by decide +kernel  -- fmod(-6, 3) = −0
+example : call2 "fmod" 9223372036854775808 4617315517961601024 = some [9223372036854775808] := by decide +kernel   -- fmod(-0, 5) = −0
+example : call2 "fmod" 4618441417868443648 13837309855095848960 = some [0] := by decide +kernel                    -- fmod(6, -3) = +0
+
+/-- **special_unary_refines** — floor, ceil, abs, sqrt, modf, frexp, deg, rad on every grid operand: the wrapper's
+    result (Go's function, incl. mathModf's repair of `Modf(±Inf)`) is what C99 / the manual fix, bit for bit where
+    they fix bits (signed zeros: floor(-0) = −0, ceil(-0.5) = −0, sqrt(-0) = −0, modf(-inf) = −inf, −0 …). -/
+theorem special_unary_refines :
+    ["floor", "ceil", "abs", "sqrt", "modf", "frexp", "deg", "rad"].all (fun fn =>
+      spGrid.all fun x => spRefines (call1 fn x) (spec1 fn x)) = true := by decide +kernel
+
+/-- **special_binary_refines** — fmod and ldexp (integral exponent operands) on every pair of the grid. -/
+theorem special_binary_refines :
+    ["fmod", "ldexp"].all (fun fn =>
+      spGrid.all fun x => spGrid.all fun y =>
+        match call2 fn x y with
+        | some r => spRefines (some r) (spec2 fn x y)
+        | none => true) = true := by decide +kernel       -- none: exponent outside int64, Go's conversion not modelled
+
+/-- **special_maxmin_refines** — math.max / math.min over every pair and every triple of {±0, ±1, ±inf, NaN}. -/
+theorem special_maxmin_refines :
+    spGrid.all (fun x => spGrid.all fun y =>
+      spRefines ((MathModel.mathMax [x, y]).map ([·])) (specMaxMin true [x, y]) &&
+      spRefines ((MathModel.mathMin [x, y]).map ([·])) (specMaxMin false [x, y])) = true ∧
+    (let small : List Bits := [0, 9223372036854775808, 4607182418800017408, 13830554455654793216,
+        9218868437227405312, 18442240474082181120, 9221120237041090561]
+     small.all fun x => small.all fun y => small.all fun z =>
+      spRefines ((MathModel.mathMax [x, y, z]).map ([·])) (specMaxMin true [x, y, z]) &&
+      spRefines ((MathModel.mathMin [x, y, z]).map ([·])) (specMaxMin false [x, y, z])) = true := by
+  constructor <;> decide +kernel
+
+/-- the `%` operator / math.mod at full strength on the grid: `luaModulo` delivers what the Lua 5.1 definition
+    `a - math.floor(a/b)*b` fixes. -/
+def special_luamod_full : Prop :=
+  spGrid.all (fun a => spGrid.all fun b => spRefines (call2 "opmod" a b) (spec2 "opmod" a b)) = true
+
+/-- FALSE (known finding C15-modulo-ieee-specials): `-6 % 3` is −0, the definition gives −6 − (−6) = +0. -/
+theorem special_luamod_full_fails : ¬ special_luamod_full := by
+  unfold special_luamod_full
+  decide +kernel
+
+example : call2 "opmod" 13841813454723219456 4613937818241073152 = some [9223372036854775808] ∧
+    luaModFormula 13841813454723219456 4613937818241073152 = 0 := by decide +kernel
+
+/-- **special_luamod_partial** — outside the two operand classes where only the IEEE evaluation of the formula
+    says anything (a zero remainder; a finite dividend with an infinite divisor) `luaModulo` is the definition, bit
+    for bit: the exact floored remainder rounded once, NaN for an infinite dividend, a zero divisor, a NaN. -/
+theorem special_luamod_partial :
+    spGrid.all (fun a => spGrid.all fun b =>
+      luaModIeeeOnly a b || spRefines (call2 "opmod" a b) (spec2 "opmod" a b)) = true := by decide +kernel
+
+/-- the guard is not vacuous: 5.5-like operands outside the class, with both signs -/
+example : luaModIeeeOnly 13837309855095848960 4611686018427387904 = false ∧                       -- -3 % 2 = 1
+    call2 "opmod" 13837309855095848960 4611686018427387904 = some [4607182418800017408] := by decide +kernel
+
+end Special
 
 end GLua.Props.C15
